@@ -51,10 +51,19 @@ def parse_line(line):
 
 def evaluate(line, out):
     """None when the log satisfies both clauses, else (clause, sentence); clause in C17 | C18 | both"""
+    UNCLOSED = ("refresh #%s returned with the group database stream still OPEN (its scan was not ended by endgrent()): "
+                "glibc's next setgrent() then only rewinds the file opened by that scan, so once /etc/group has been "
+                "replaced by rename() (vipw, gpasswd, usermod) every later refresh rebuilds the map from the old, unlinked "
+                "file")
+    unclosed = re.findall(r"!unclosed(-?\d+)", out or "")
     try:
         _evaluate(line, out)
     except Fail as e:
+        if unclosed and e.clause in ("C17", "both"):
+            return "C17", e.why + " [" + UNCLOSED % unclosed[0] + "]"
         return e.clause, e.why
+    if unclosed:
+        return "C17", UNCLOSED % unclosed[0] + " (no answer in this history shows it yet)"
     return None
 
 
@@ -90,13 +99,13 @@ def _evaluate(line, out):
         if t == "!timeout":
             raise Fail("both", "the case did not finish (deadlock between gids_update and a running refresh, or "
                        "a timer thread that never comes to rest): log so far: " + " ".join(toks[-12:]))
-        if t == "!norest":
+        if t == "!norest" or t.startswith("!unclosed"):
             continue                                       # judged where it occurs in the sequence
         if t.startswith("!") or t.startswith("?"):
             raise Fail("both", "harness trouble: " + t + " (log tail: " + " ".join(toks[-12:]) + ")")
     W = dict(db=[], pw=[], mtime=0)                       # the databases as they are now
     S = dict(clock=0, hi=0, flag=(1 if dostat else 0), t_last=0, loaded=None, pending={}, ids=set(), fired=set(),
-             owed=None, started=0, hooks={}, nrefresh=0)
+             owed=None, started=0, hooks={}, nrefresh=0, unclosed=[])
 
     def world():
         return (list(W["db"]), list(W["pw"]), W["mtime"])
@@ -209,8 +218,13 @@ def _evaluate(line, out):
         marks = {"hT": (hook[0], "inside %s, before its scan" % desc),
                  "hG": (hook[1], "inside %s, after it has opened the databases" % desc),
                  "hE": (hook[2], "inside %s, at the end of its scan" % desc)}
-        while peek() is not None and (peek() in marks or peek() == "o" or peek()[0] in "cs"):
+        while peek() is not None and (peek() in marks or peek() in ("o", "e") or peek()[0] in "cs" or peek().startswith("!unclosed")):
             t = take()
+            if t == "e":
+                continue                                    # endgrent(): the stream is closed again
+            if t.startswith("!unclosed"):
+                S["unclosed"].append(n)
+                continue
             if t in marks:
                 do_acts(*marks[t])
             elif t == "o":
@@ -487,7 +501,7 @@ Definition evz (e : gev) : list Z :=
   match e with
   | ESet id now ms => [1; id; now; ms] | ECancel id ok => [2; id; b2z ok] | EFire id now => [3; id; now]
   | EReturn a b => [4; b2z a; b2z b] | EAns _ _ b => [5; b2z b] | EMark c => [6; Z.of_nat c] | EStuck => [7]
-  | EUpdated => [8] | EOpen => [9]
+  | EUpdated => [8] | EOpen => [9] | EClose => [12]
   end.
 Fixpoint hlook (hk : list (nat * hook)) (n : nat) : hook :=
   match hk with [] => no_hook | (k, h) :: r => if Nat.eqb k n then h else hlook r n end.
@@ -558,7 +572,7 @@ def tokens_of_coq(r, nuni):
             continue
         toks.append({1: lambda: "s%d@%d+%d" % tuple(v[1:4]), 2: lambda: "c%d=%d" % tuple(v[1:3]),
                      3: lambda: "f%d@%d" % tuple(v[1:3]), 4: lambda: "r%d%d" % tuple(v[1:3]),
-                     6: lambda: "h" + "TGE"[v[1]], 7: lambda: "!stuck", 8: lambda: "u", 9: lambda: "o",
+                     6: lambda: "h" + "TGE"[v[1]], 7: lambda: "!stuck", 8: lambda: "u", 9: lambda: "o", 12: lambda: "e",
                      10: lambda: ("d%d=%d" % tuple(v[1:3]) if len(v) > 1 else "d-"), 11: lambda: "|"}[v[0]]())
     return " ".join(toks + ["."])
 
